@@ -4,13 +4,12 @@ go 1.26.0
 
 require (
 	go.sia.tech/core v0.0.0
+	go.sia.tech/mux v1.5.3
 	golang.org/x/crypto v0.55.0
+	golang.org/x/sys v0.47.0
 	pgregory.net/rapid v1.3.0
 )
 
-require (
-	golang.org/x/sys v0.47.0 // indirect
-	lukechampine.com/frand v1.5.1 // indirect
-)
+require lukechampine.com/frand v1.5.1 // indirect
 
 replace go.sia.tech/core => /repo
